@@ -124,6 +124,9 @@ def _exec_history(case):
         r = cut(quantize, model, weights=wq_arg, activations=aq_arg)
     if isinstance(r, Raised):
         return out.fail(f"quantize-raises:{r.type}", r.text)
+    paramless_ln = not case["model"].get("ln_affine", True)
+    if paramless_ln:
+        model.to(dtype)  # a LayerNorm without parameters has no dtype quantize() could read: the user casts its scale buffers afterwards
     if case["calibrate"] != "no" and aq is not None:
         with torch.no_grad():
             r = cut(lambda: _calib(model, M.batch(shape, dtype, g), case["calibrate"] == "streamline"))
@@ -200,6 +203,8 @@ def _exec_history(case):
                     freeze(tgt)
             else:
                 quantize(tgt)
+            if paramless_ln:
+                tgt.to(dtype)
             r = cut(tgt.load_state_dict, given, assign=True) if target == "same-assign" else cut(tgt.load_state_dict, given)
         if isinstance(r, Raised):
             if partial and target in ("default", "requantize") and r.type == "KeyError" and "weight_qtype" in r.text:
